@@ -25,8 +25,11 @@ from gverif.harness import Run
 from gverif.props import c11_lib as L
 
 
+BASE_RULE = ["missing"]     # probed in main()
+
+
 def run_tlc(cfg: str, max_edits: int, family: str, catch: bool, emit=True, workers=4, dump_trace=False, timeout=2400, store=None):
-    consts = {"MAXEDITS": max_edits, "FAMILY": family, "CATCHCYCLIC": "TRUE" if catch else "FALSE", "EMIT": "TRUE" if emit else "FALSE"}
+    consts = {"BASERULE": BASE_RULE[0], "MAXEDITS": max_edits, "FAMILY": family, "CATCHCYCLIC": "TRUE" if catch else "FALSE", "EMIT": "TRUE" if emit else "FALSE"}
     return tlc.run("DiffTree", cfg, workers=workers, constants=consts, dump_trace=dump_trace, timeout=timeout, heap="3g", on_line=store.add if store is not None else None)
 
 
@@ -238,6 +241,8 @@ def main(tier: str, replay: str | None = None):
                 "Non-trivial = state with >= 1 edit, or identical pair whose base has a public dangling/cyclic re-export; distinct by (base, edit script).")
     catch = L.catches_cyclic()
     run.extra["catch_cyclic_probed"] = catch
+    BASE_RULE[0] = L.base_rule()
+    run.extra["base_rule_probed"] = BASE_RULE[0]
     for text in L.CATCH_NOTES:
         run.note(text)
     rnd = random.Random(SEED)
@@ -267,17 +272,18 @@ def main(tier: str, replay: str | None = None):
         run.finish()
 
     if tier == "quick":
-        plan = {"all": ("DiffTree_check.cfg", 1, "all", 6), "small": ("DiffTree_check.cfg", 2, "small", 6)}
+        plan = {"all": ("DiffTree_check.cfg", 1, "all", 6), "small": ("DiffTree_check.cfg", 2, "small", 6), "swap": ("DiffTree_check.cfg", 2, "swap", 1)}
         procs, n_cli = 8, 10
     else:
-        plan = {"all": ("DiffTree_check.cfg", 2, "all", 10), "small": ("DiffTree_check.cfg", 3, "small", 6)}
+        plan = {"all": ("DiffTree_check.cfg", 2, "all", 10), "small": ("DiffTree_check.cfg", 3, "small", 6), "swap": ("DiffTree_check.cfg", 2, "swap", 1)}
         procs, n_cli = 10, 40
     stores = {k: Store() for k in plan}
     jobs = {k: (lambda a=a, k=k: run_tlc(a[0], a[1], a[2], catch, workers=a[3], store=stores[k])) for k, a in plan.items()}
     if not catch:   # with CatchCyclic extracted as TRUE, I_NoAbort_Clean of the check cfg already is I_NoAbort everywhere
         jobs["defect_abort"] = lambda: run_tlc("DiffTree_defect_abort.cfg", 1, "all", catch, emit=False, workers=1, dump_trace=True)
+    jobs["defect_baseswap"] = lambda: tlc.run("DiffTree", "DiffTree_defect_baseswap.cfg", workers=1, timeout=600, heap="2g")
     jobs["defect_path"] = lambda: run_tlc("DiffTree_defect_path.cfg", 1, "small", catch, emit=False, workers=1, dump_trace=True)
-    with ThreadPoolExecutor(max_workers=4) as ex:
+    with ThreadPoolExecutor(max_workers=5) as ex:
         futs = {k: ex.submit(f) for k, f in jobs.items()}
         res = {k: f.result() for k, f in futs.items()}
     run.extra["timing"] = {"tlc_wall_s": {k: round(r.wall_s, 1) for k, r in res.items()}, "tlc_and_parse_s": round(time.time() - run.t0, 1)}
@@ -300,8 +306,13 @@ def main(tier: str, replay: str | None = None):
     confirm_defect(run, griffe, res["defect_path"], "I_ReportedAtPublicPath", "public path")
 
     run.extra["timing"]["defects_confirmed_at_s"] = round(time.time() - run.t0, 1)
+    tlc.must(res["defect_baseswap"], allow_violations=True)
+    run.add_tlc(res["defect_baseswap"])
+    if "I_ReportedSomewhere" not in res["defect_baseswap"].violated:
+        die("C11: with the former base-class test (BaseRule = shorter) TLC no longer violates clause (ii) on a base swap: the regression domain of the spec is broken")
     store = stores["all"]
     store.merge(stores["small"])
+    store.merge(stores["swap"])
     del stores, res
     # vacuity: every edit of the catalogue, every clause antecedent and both alias failure modes are reached
     ops: set = set()
